@@ -217,3 +217,183 @@ theorem BRed_spec (x y q : Nat) (hq : 1 < q) (h2q : 2 * q ≤ W) (hx : x < W) (h
 theorem BRed_lt (x y q : Nat) (hq : 1 < q) (h2q : 2 * q ≤ W) (hx : x < W) (hy : y < W) :
     BRed x y q (brc q) < q := by
   rw [BRed_spec x y q hq h2q hx hy]; exact Nat.mod_lt _ (by omega)
+
+/-! ### Montgomery form -/
+
+/-- Last step of `MFormLazy`: `(-t)·q mod 2^64 = a·2^64 - T·q` when `t ≡ T`, `P = a·2^64`. -/
+theorem mform_final (P T q t : Nat) (ht : t = T % W) (hP : P % W = 0) (h1 : T * q ≤ P)
+    (h2 : P < T * q + 2 * q) (h2q : 2 * q ≤ W) :
+    u64mul (u64neg t) q + T * q = P ∧ u64mul (u64neg t) q < 2 * q := by
+  subst ht
+  simp only [u64mul, u64neg, Nat.mod_mod, Nat.mod_mul_mod]
+  have hT := Nat.div_add_mod T W
+  have ht0 : T % W < W := Nat.mod_lt _ (by decide)
+  generalize T / W = t1 at *
+  generalize T % W = t0 at *
+  have hTq : T * q = t1 * q * W + t0 * q := by rw [← hT]; ring
+  have hY : (W - t0) * q + t0 * q = W * q := by
+    rw [← Nat.add_mul, Nat.sub_add_cancel (Nat.le_of_lt ht0)]
+  generalize (W - t0) * q = Y at *
+  generalize t0 * q = Z at *
+  generalize t1 * q = K at *
+  generalize T * q = X at *
+  unfold W at *
+  omega
+
+theorem MFormLazy_eq (a q : Nat) (hq : 1 < q) (h2q : 2 * q ≤ W) (ha : a < W) :
+    MFormLazy a q (brc q) + (a * W * (W * W / q) / (W * W)) * q = a * W
+    ∧ MFormLazy a q (brc q) < 2 * q := by
+  have hP : a * W ≤ W * W := Nat.mul_le_mul_right W (Nat.le_of_lt ha)
+  obtain ⟨h1, h2⟩ := barrett_quot (W * W) q (a * W) (by omega) (by decide) hP
+  unfold MFormLazy
+  simp only [mul64]
+  refine mform_final _ _ _ _ ?_ (Nat.mul_mod_left _ _) h1 h2 h2q
+  have hu := brc_combine q hq
+  generalize (brc q).1 = uhi at *
+  generalize (brc q).2 = ulo at *
+  generalize W * W / q = u at *
+  have e1 : a * W * u / (W * W) = a * u / W := by
+    rw [Nat.mul_right_comm a W u, Nat.mul_div_mul_right _ _ (by decide : 0 < W)]
+  have e2 : a * u = a * uhi * W + a * ulo := by rw [← hu]; ring
+  rw [e1, e2]
+  simp only [u64add, u64mul]
+  generalize a * uhi = E
+  generalize a * ulo = F
+  unfold W at *
+  omega
+
+/-- **MFormLazy**: `≡ a·2^64 (mod q)`, `< 2q`, for every uint64 `a`, `2 ≤ q ≤ 2^63`. -/
+theorem MFormLazy_spec (a q : Nat) (hq : 1 < q) (h2q : 2 * q ≤ W) (ha : a < W) :
+    MFormLazy a q (brc q) % q = (a * W) % q ∧ MFormLazy a q (brc q) < 2 * q := by
+  obtain ⟨h1, h2⟩ := MFormLazy_eq a q hq h2q ha
+  exact ⟨mod_eq_of_add_mul_eq (k2 := 0) (by rw [h1]; ring), h2⟩
+
+theorem MForm_eq_CRed (a q : Nat) (c : Nat × Nat) : MForm a q c = CRed (MFormLazy a q c) q := rfl
+
+/-- **MForm**: `MForm a q (GenBRedConstant q) = a·2^64 mod q`. -/
+theorem MForm_spec (a q : Nat) (hq : 1 < q) (h2q : 2 * q ≤ W) (ha : a < W) :
+    MForm a q (brc q) = (a * W) % q := by
+  obtain ⟨h1, h2⟩ := MFormLazy_spec a q hq h2q ha
+  rw [MForm_eq_CRed, CRed_spec _ q (by omega) h2 (by omega), h1]
+
+theorem IMFormLazy_eq (a q qinv : Nat) (hqW : q < W) (hm : MontConst q qinv) (ha : a < W) :
+    IMFormLazy a q qinv * W + ((a * qinv) % W) * q = a + q * W
+    ∧ 0 < IMFormLazy a q qinv ∧ IMFormLazy a q qinv ≤ q := by
+  have hlow := mont_low q qinv a hm ha
+  unfold IMFormLazy
+  simp only [mul64, u64sub, u64mul]
+  generalize hM : (a * qinv) % W = m at *
+  have hmW : m < W := by rw [← hM]; exact Nat.mod_lt _ (by decide)
+  have hq0 := hm.pos
+  have hmq : m * q < W * q := Nat.mul_lt_mul_of_pos_right hmW hq0
+  generalize hMq : m * q = Mq at *
+  have h2 := Nat.div_add_mod Mq W
+  have hHq : Mq / W < q := Nat.div_lt_of_lt_mul hmq
+  unfold W at *
+  omega
+
+/-- **IMFormLazy**: `r·2^64 ≡ a (mod q)` and `0 < r ≤ q` (the Go comment says `[0, 2q-1]`;
+the true range is `[1, q]`; `r = q` is attained at `a = 0`, see `IMFormLazy_zero`). -/
+theorem IMFormLazy_spec (a q qinv : Nat) (hqW : q < W) (hm : MontConst q qinv) (ha : a < W) :
+    (IMFormLazy a q qinv * W) % q = a % q
+    ∧ 0 < IMFormLazy a q qinv ∧ IMFormLazy a q qinv ≤ q := by
+  obtain ⟨h, h2, h3⟩ := IMFormLazy_eq a q qinv hqW hm ha
+  exact ⟨mod_eq_of_add_mul_eq (k2 := W) (by rw [h]; ring), h2, h3⟩
+
+theorem IMForm_eq_CRed (a q c : Nat) : IMForm a q c = CRed (IMFormLazy a q c) q := rfl
+
+/-- **IMForm**: `r·2^64 ≡ a (mod q)`, `r < q`. -/
+theorem IMForm_spec (a q qinv : Nat) (hqW : q < W) (hm : MontConst q qinv) (ha : a < W) :
+    (IMForm a q qinv * W) % q = a % q ∧ IMForm a q qinv < q := by
+  obtain ⟨h1, h2, h3⟩ := IMFormLazy_spec a q qinv hqW hm ha
+  have hq0 := hm.pos
+  rw [IMForm_eq_CRed, CRed_spec _ q hq0 (by omega) (by omega)]
+  exact ⟨by rw [Nat.mod_mul_mod]; exact h1, Nat.mod_lt _ hq0⟩
+
+/-- `IMFormLazy 0 = q`: the lazy inverse Montgomery form of `0` is `q`, not `0`. -/
+theorem IMFormLazy_zero (q qinv : Nat) (hqW : q < W) : IMFormLazy 0 q qinv = q := by
+  unfold IMFormLazy
+  simp only [mul64, u64sub, u64mul, Nat.zero_mul, Nat.zero_mod, Nat.zero_div]
+  unfold W at *
+  omega
+
+/-! ### GenMRedConstant -/
+
+theorem genMRed_loop (q : Nat) : ∀ n i : Nat,
+    loopN n (fun t : Nat × Nat => (u64mul t.1 t.2, u64mul t.2 t.2))
+      (q ^ (2 ^ i - 1) % W, q ^ (2 ^ i) % W)
+    = (q ^ (2 ^ (i + n) - 1) % W, q ^ (2 ^ (i + n)) % W) := by
+  intro n
+  induction n with
+  | zero => intro i; rfl
+  | succ n ih =>
+    intro i
+    have h1 : 2 ^ i - 1 + 2 ^ i = 2 ^ (i + 1) - 1 := by
+      have : 0 < 2 ^ i := Nat.two_pow_pos i
+      rw [Nat.pow_succ]; omega
+    have h2 : 2 ^ i + 2 ^ i = 2 ^ (i + 1) := by rw [Nat.pow_succ]; omega
+    show loopN n _ (u64mul _ _, u64mul _ _) = _
+    simp only [u64mul, ← Nat.mul_mod, ← Nat.pow_add, h1, h2] at ih ⊢
+    rw [ih (i + 1)]
+    have : i + 1 + n = i + (n + 1) := by omega
+    rw [this]
+
+theorem GenMRedConstant_eq (q : Nat) (hq : q < W) : GenMRedConstant q = q ^ (2 ^ 63 - 1) % W := by
+  have h := genMRed_loop q 63 0
+  simp only [Nat.pow_zero, Nat.sub_self, Nat.pow_one, Nat.zero_add,
+    Nat.mod_eq_of_lt hq, Nat.mod_eq_of_lt (by decide : 1 < W)] at h
+  unfold GenMRedConstant
+  exact congrArg Prod.fst h
+
+theorem sq_mod_double (x M h : Nat) (hM : M = 2 * h) (hh : 0 < h) (hx : x % M = 1) :
+    (x * x) % (2 * M) = 1 := by
+  have hd := Nat.div_add_mod x M
+  rw [hx] at hd
+  generalize x / M = c at hd
+  have : x * x = 2 * M * (h * c * c + c) + 1 := by rw [← hd, hM]; ring
+  rw [this, Nat.mul_add_mod]
+  exact Nat.mod_eq_of_lt (by omega)
+
+/-- For odd `q`, `q^(2^(k+1)) ≡ 1 (mod 2^(k+3))`. -/
+theorem odd_pow_two_pow (q : Nat) (hodd : q % 2 = 1) : ∀ k : Nat, q ^ (2 ^ (k + 1)) % 2 ^ (k + 3) = 1 := by
+  intro k
+  induction k with
+  | zero =>
+    show q ^ 2 % 8 = 1
+    have h8 : q % 8 = 1 ∨ q % 8 = 3 ∨ q % 8 = 5 ∨ q % 8 = 7 := by omega
+    rw [Nat.pow_two, Nat.mul_mod]
+    rcases h8 with h | h | h | h <;> rw [h]
+  | succ k ih =>
+    have e : q ^ 2 ^ (k + 1 + 1) = q ^ 2 ^ (k + 1) * q ^ 2 ^ (k + 1) := by
+      rw [← Nat.pow_add]; congr 1; rw [Nat.pow_succ 2 (k + 1)]; omega
+    have e2 : 2 ^ (k + 1 + 3) = 2 * 2 ^ (k + 3) := by rw [Nat.pow_succ]; omega
+    rw [e, e2]
+    exact sq_mod_double _ _ (2 ^ (k + 2)) (by rw [Nat.pow_succ]; omega) (Nat.two_pow_pos _) ih
+
+theorem odd_pow_mod_W (q : Nat) (hodd : q % 2 = 1) : q ^ (2 ^ 63) % W = 1 := by
+  have h := odd_pow_two_pow q hodd 62
+  have hd : W ∣ 2 ^ (62 + 3) := ⟨2, by decide⟩
+  rw [← Nat.mod_mod_of_dvd _ hd, h]
+  decide
+
+/-- **GenMRedConstant**: for odd `q < 2^64`, the 63-step square-and-multiply loop returns
+`q^(2^63-1) mod 2^64`, which is the inverse of `q` modulo `2^64`. -/
+theorem GenMRedConstant_spec (q : Nat) (hodd : q % 2 = 1) (hq : q < W) :
+    MontConst q (GenMRedConstant q) ∧ GenMRedConstant q < W := by
+  rw [GenMRedConstant_eq q hq]
+  refine ⟨?_, Nat.mod_lt _ (by decide)⟩
+  unfold MontConst
+  rw [Nat.mul_mod_mod, ← Nat.pow_succ']
+  have : (2 ^ 63 - 1).succ = 2 ^ 63 := by decide
+  rw [this]
+  exact odd_pow_mod_W q hodd
+
+/-- Conversely a Montgomery constant exists only for odd `q`. -/
+theorem MontConst.odd {q qinv : Nat} (h : MontConst q qinv) : q % 2 = 1 := by
+  unfold MontConst at h
+  have h2 : (q * qinv) % 2 = 1 := by
+    have : (q * qinv) % W % 2 = (q * qinv) % 2 := Nat.mod_mod_of_dvd _ ⟨2 ^ 63, by decide⟩
+    rw [← this, h]
+  rcases Nat.mod_two_eq_zero_or_one q with h0 | h0
+  · rw [Nat.mul_mod, h0] at h2; simp at h2
+  · exact h0
